@@ -37,13 +37,13 @@ Definition busy_ok (s : mstate) : Prop :=
   m_states s <> [] /\ path_ok (m_states s) = true /\
   (m_done s = false -> m_action s <> RNone ->
      (last_state s = StDisconnected \/ last_state s = StReconnecting) /\
-     ((m_action s = RRestoreSubscriptions \/ m_action s = RTransferSubscriptions) -> last_state s = StReconnecting)).
+     (m_action s = RRestoreSubscriptions -> last_state s = StReconnecting)).
 
 Ltac keep H := destruct H as [?Hst [?Hdn [?Hse ?Hac]]].
 
 Lemma step_action_ok s : busy_ok s -> m_done s = false -> busy_ok (step_action s).
 Proof.
-  intros [Hne [Hp Hb]] Hd. unfold step_action.
+  intros [Hne [Hp Hb]] Hd. unfold step_action, step_action_gen.
   destruct (m_action s) eqn:Ea.
   - (* none *) split; [exact Hne|]. split; [exact Hp|]. intros _ H. congruence.
   - (* createSecureChannel *)
@@ -53,7 +53,7 @@ Proof.
     unfold busy_ok, last_state. cbn [set_action m_states m_done m_action]. rewrite Hst. cbn [emit s1 m_states].
     split; [destruct (m_states s); discriminate|]. split.
     + rewrite path_ok_snoc by exact Hne. rewrite Hp. unfold last_state in Hl. destruct Hl as [-> | ->]; reflexivity.
-    + intros _ _. rewrite last_snoc. split; [right; reflexivity | intros [H|H]; discriminate].
+    + intros _ _. rewrite last_snoc. split; [right; reflexivity | intros H; discriminate].
   - (* restoreSession *)
     destruct (Hb Hd ltac:(discriminate)) as [Hl _].
     assert (Hp1 : path_ok (m_states s ++ [StReconnecting]) = true).
@@ -68,13 +68,13 @@ Proof.
         destruct (do_call (set_session s3 true) CNamespaces) as [ok2 s5]. cbn in K2. keep K2.
         destruct ok2; unfold busy_ok, last_state; cbn [set_action m_states m_done m_action];
           rewrite Hst0, Hst; (split; [exact Hne1|]; split; [exact Hp1|]; intros _ _; rewrite last_snoc;
-          split; [right; reflexivity | intros [H|H]; try discriminate; reflexivity]).
+          split; [right; reflexivity | intros H; try discriminate; reflexivity]).
       * unfold busy_ok, last_state; cbn [set_action m_states m_done m_action]. rewrite Hst.
         split; [exact Hne1|]. split; [exact Hp1|]. intros _ _. rewrite last_snoc.
-        split; [right; reflexivity | intros [H|H]; discriminate].
+        split; [right; reflexivity | intros H; discriminate].
     + unfold busy_ok, last_state; cbn [set_action emit m_states m_done m_action].
       split; [exact Hne1|]. split; [exact Hp1|]. intros _ _. rewrite last_snoc.
-      split; [right; reflexivity | intros [H|H]; discriminate].
+      split; [right; reflexivity | intros H; discriminate].
   - (* recreateSession *)
     destruct (Hb Hd ltac:(discriminate)) as [Hl _].
     assert (Hp1 : path_ok (m_states s ++ [StReconnecting]) = true).
@@ -94,16 +94,17 @@ Proof.
     destruct (do_call (set_session s3 true) CNamespaces) as [ok3 s5]. cbn in K3. keep K3.
     destruct ok3; apply Fin; try (cbn in *; congruence); [right | left]; reflexivity.
   - (* restoreSubscriptions *)
-    destruct (Hb Hd ltac:(discriminate)) as [_ Hl]. specialize (Hl (or_introl eq_refl)).
+    destruct (Hb Hd ltac:(discriminate)) as [_ Hl]. specialize (Hl eq_refl).
     unfold busy_ok, last_state; cbn [set_action emit m_states m_done m_action].
     split; [destruct (m_states s); discriminate|]. split.
     + rewrite path_ok_snoc by exact Hne. rewrite Hp. unfold last_state in Hl. rewrite Hl. reflexivity.
     + intros _ H. congruence.
-  - (* transferSubscriptions *)
-    destruct (Hb Hd ltac:(discriminate)) as [Hl1 Hl]. specialize (Hl (or_intror eq_refl)).
-    unfold busy_ok, last_state; cbn [set_action m_states m_done m_action].
-    split; [exact Hne|]. split; [exact Hp|]. intros _ _. unfold last_state in Hl. rewrite Hl.
-    split; [right; reflexivity | intros _; reflexivity].
+  - (* transferSubscriptions: reports Reconnecting *)
+    destruct (Hb Hd ltac:(discriminate)) as [Hl _].
+    unfold busy_ok, last_state; cbn [set_action emit m_states m_done m_action].
+    split; [destruct (m_states s); discriminate|]. split.
+    + rewrite path_ok_snoc by exact Hne. rewrite Hp. unfold last_state in Hl. destruct Hl as [-> | ->]; reflexivity.
+    + intros _ _. rewrite last_snoc. split; [right; reflexivity | intros _; reflexivity].
   - (* abort *)
     unfold busy_ok, finish; cbn [m_states m_done m_action].
     split; [destruct (m_states s); discriminate|]. split.
@@ -113,22 +114,22 @@ Qed.
 
 Lemma run_actions_ok fuel : forall s, busy_ok s -> busy_ok (run_actions fuel s).
 Proof.
-  induction fuel as [|f IH]; intros s H; cbn; [exact H|].
+  unfold run_actions. induction fuel as [|f IH]; intros s H; cbn; [exact H|].
   destruct (m_done s) eqn:Hd; [exact H|]. destruct (m_action s) eqn:Ea; try exact H;
     apply IH; apply step_action_ok; assumption.
 Qed.
 
-Lemma on_error_ok auto e ev : e <> ESubscriptionInvalid -> busy_ok (on_error auto e (connected ev)).
+Lemma on_error_ok auto e ev : busy_ok (on_error auto e (connected ev)).
 Proof.
-  intros He. unfold on_error. destruct e; try congruence;
+  unfold on_error. destruct e;
     try (destruct auto; unfold busy_ok, last_state; cbn; (split; [discriminate|]; split; [reflexivity|]);
-         intros; try discriminate; split; [left; reflexivity | intros [H1|H1]; discriminate]).
+         intros; try discriminate; split; [left; reflexivity | intros H1; discriminate]).
   (* ENoSubscription: nothing happens *)
   unfold busy_ok, last_state; cbn. split; [discriminate|]. split; [reflexivity|]. intros _ H. congruence.
 Qed.
 
 Theorem reconnect_transitions_documented auto e fuel ev :
-  e <> ESubscriptionInvalid -> path_ok (m_states (reconnect auto e fuel ev)) = true.
+  path_ok (m_states (reconnect auto e fuel ev)) = true.
 Proof.
-  intros He. unfold reconnect. destruct (run_actions_ok fuel _ (on_error_ok auto e ev He)) as [_ [H _]]. exact H.
+  unfold reconnect, reconnect_gen. destruct (run_actions_ok fuel _ (on_error_ok auto e ev)) as [_ [H _]]. exact H.
 Qed.
